@@ -510,6 +510,26 @@ def check(ctx):
                         f"{gname} is propagated by {h.qualname} as {T.symplectic_text(composed, names)}"
                         f"; conjugation by {gname} maps {T.symplectic_text(tuple(frozenset({i}) for i in range(n)), names)} to {T.symplectic_text(ref, names)}",
                         line=hret.lineno)
+    if n_gates == 0:
+        # the dispatcher is written in a form whose argument binding this rule does not follow (merged isinstance branches, star
+        # unpacking, …): decide the helpers on their own by the module's naming convention `_commute_<gate>` and positional reading
+        # (x, z per wire, control first); the binding stays undecided
+        for hname, gname in (("_commute_s", "S"), ("_commute_h", "Hadamard"), ("_commute_cnot", "CNOT")):
+            h = m.functions.get(hname)
+            ref = T.SYMPLECTIC.get(gname) or T.SYMPLECTIC.get({"Hadamard": "H"}.get(gname, gname))
+            if h is None or ref is None:
+                continue
+            params, rows, groups, hret = T.gf2_outputs(h.node)
+            rep.analysed(m.relpath, h.qualname)
+            where = f"{m.relpath}:{hname} (helper alone)"
+            if rows is None or len(rows) != len(ref):
+                rep.unknown(R, where, "helper not readable as a GF(2) map")
+                continue
+            n_gates += 1
+            if _positional_map(params, rows) == ref:
+                rep.proved(R, where, f"read positionally it is the symplectic action of {gname}; how commute_clifford_op binds xz[i] to it is not decided")
+            else:
+                rep.unknown(R, where, f"read positionally it is not the symplectic action of {gname}, and the dispatcher's binding is not followed")
     rep.floor("Clifford gates dispatched to a GF(2) helper", n_gates, 3)
 
     # ---- every supported gate has its own branch ------------------------------------------------
